@@ -162,6 +162,10 @@ def run(run, model):
     run.try_rule(r17_2, model)
     run.try_rule(r17_3, model)
     run.try_rule(r17_4, model)
+    from rules import c03
+    run.rule("R17.6", "a coercion to dyn is recorded once per expression: call arguments are type-checked once (shared with C03 R03.11); a second "
+                      "pass pushes the ToDyn coercion again and the value is wrapped twice")
+    run.try_rule(c03.r03_11, model)
     from rules import c09
     run.rule("R17.5", "the call forms are emitted alike in effect position: static calls (ECall) and dyn calls (EDynCall) both become a Go "
                       "statement when their value is unused (shared with C09 R09.6)")
